@@ -1907,7 +1907,53 @@ func rC07SingleDash(w *World, r *Report) {
 		}
 		return false
 	}
+	// the option text is a single rune: len([]rune(match[2])) <= 1
+	oneRune := func(fc Fact) bool {
+		if fc.Y == nil {
+			return false
+		}
+		x, y, op := fc.X, fc.Y, fc.Op
+		if _, isC := x.(*ssa.Const); isC {
+			x, y = y, x
+			switch op {
+			case token.LSS:
+				op = token.GTR
+			case token.GTR:
+				op = token.LSS
+			case token.LEQ:
+				op = token.GEQ
+			case token.GEQ:
+				op = token.LEQ
+			}
+		}
+		c, ok := lenOf(x)
+		if !ok {
+			return false
+		}
+		cv, ok := c.(*ssa.Convert)
+		if !ok || typeString(cv.Type()) != "[]rune" || !isSubmatchElem(cv.X, 2) {
+			return false
+		}
+		k, isK := constInt(y)
+		return isK && ((op == token.LEQ && k == 1) || (op == token.EQL && k == 1) || (op == token.LSS && k == 2))
+	}
+	// the value itself is empty: string([]rune(match[2])[1:]) + match[3] == ""
+	valueEmpty := func(fc Fact) bool {
+		if fc.Y == nil || fc.Op != token.EQL {
+			return false
+		}
+		x, y := fc.X, fc.Y
+		if _, isC := x.(*ssa.Const); isC {
+			x, y = y, x
+		}
+		if sv, isS := constString(y); !isS || sv != "" {
+			return false
+		}
+		bo, ok := x.(*ssa.BinOp)
+		return ok && bo.Op == token.ADD && isSubmatchElem(bo.Y, 3)
+	}
 	skipBad := ""
+	skipRunes := ""
 	nSkip := 0
 	for _, b := range fn.Blocks {
 		iff, ok := b.Instrs[len(b.Instrs)-1].(*ssa.If)
@@ -1933,18 +1979,28 @@ func rC07SingleDash(w *World, r *Report) {
 			// does this edge lead to a return of pairs at all (not the error / other-mode paths)
 			nSkip++
 			facts := append(factsAt(b), condFacts(iff.Cond, k == 0, iff)...)
-			emptyKnown := false
+			emptyKnown, oneKnown := false, false
 			for _, fc := range facts {
 				if m3Empty(fc) {
 					emptyKnown = true
+				}
+				if oneRune(fc) {
+					oneKnown = true
+				}
+				if valueEmpty(fc) {
+					emptyKnown, oneKnown = true, true
 				}
 			}
 			if !emptyKnown {
 				skipBad = w.IPos(iff)
 			}
+			if !oneKnown {
+				skipRunes = w.IPos(iff)
+			}
 		}
 	}
 	_ = isArgStore
+	ru.Check(skipRunes == "" && nSkip > 0, "single-dash/value-glued", w.Pos(fn.Pos()), "the value is left out only when the option text is a single rune", "in single-dash mode the pair can be returned without its value although runes follow the first one (decided at "+skipRunes+"): `-j4` loses `4` and the option takes the next token instead")
 	ru.Check(skipBad == "" && nSkip > 0, "single-dash/value-attached", w.Pos(fn.Pos()), "the value is left out only when match[3] is empty", "in single-dash mode the pair can be returned without its value although text is attached (decided at "+skipBad+"): `-x=v` loses `=v`")
 	ru.Check(okArgs && nArgsStores == nGoodArgs, "single-dash/value", w.Pos(fn.Pos()), "Args = string([]rune(match[2])[1:]) + match[3]", fmt.Sprintf("the single-dash value is not exactly the rest of the token on every path (%d of %d stores have the documented shape)", nGoodArgs, nArgsStores))
 }
